@@ -133,15 +133,22 @@ func cacheKillPoints(r *vk.Run) {
 	self := vk.SelfExe()
 	states := map[string]bool{}
 	maxN := r.N(40, 400)
-	for _, flavour := range []string{"agg", "full"} {
-		gen1 := filepath.Join(base, flavour+"-gen1")
-		if out, err := exec.Command(self, "child", "c04-savecache", gen1, flavour, "3").CombinedOutput(); err != nil {
-			r.Inconclusive(fmt.Sprintf("cache child (generation 1) failed: %v %s", err, out))
-			return
+	for _, variant := range []string{"agg", "full", "agg-first", "full-first"} {
+		flavour := strings.TrimSuffix(variant, "-first")
+		// "-first": the killed save is the first one ever (no older generation of cache files exists)
+		withOld := !strings.HasSuffix(variant, "-first")
+		gen1 := filepath.Join(base, variant+"-gen1")
+		if withOld {
+			if out, err := exec.Command(self, "child", "c04-savecache", gen1, flavour, "3").CombinedOutput(); err != nil {
+				r.Inconclusive(fmt.Sprintf("cache child (generation 1) failed: %v %s", err, out))
+				return
+			}
+		} else {
+			_ = os.MkdirAll(gen1, 0o755)
 		}
 		finished := false
 		for n := 1; n <= maxN && !finished; n++ {
-			dir := filepath.Join(base, fmt.Sprintf("%s-kill-%d", flavour, n))
+			dir := filepath.Join(base, fmt.Sprintf("%s-kill-%d", variant, n))
 			if err := copyDir(gen1, dir); err != nil {
 				r.Inconclusive("copy: " + err.Error())
 				return
@@ -159,13 +166,13 @@ func cacheKillPoints(r *vk.Run) {
 				continue
 			}
 			st := dirState(dir)
-			newState := !states[flavour+st]
-			states[flavour+st] = true
+			newState := !states[variant+st]
+			states[variant+st] = true
 			// a node must start on what was left behind, and keep working
 			r.Hit("cache-kill-restart")
 			node, err := world.NewNode(ctx, world.NodeOpts{Aggregator: flavour == "agg", RootDir: dir, DABlockTime: time.Hour},
 				world.NewKeys("proposer"), world.NewMemDS(world.NewImage()), world.NewExecDouble(), world.NewSeqDouble(), world.NewDADouble(), nil)
-			wit := map[string]any{"flavour": flavour, "killed_at_write": n, "killed": killed, "files_left": st}
+			wit := map[string]any{"flavour": variant, "killed_at_write": n, "killed": killed, "files_left": st}
 			if err != nil {
 				id := "C04-cache-truncation"
 				detail := fmt.Sprintf("cache writer killed at its write #%d left files on which the node cannot start: %v", n, err)
@@ -179,7 +186,7 @@ func cacheKillPoints(r *vk.Run) {
 					r.Violation("cache-kill-restart", "node started on the left-over cache files but cannot produce: "+err.Error(), wit)
 				}
 			}
-			r.Eval("cache "+flavour+" "+st, killed && newState, wit)
+			r.Eval("cache "+variant+" "+st, killed && newState, wit)
 			os.RemoveAll(dir)
 		}
 		if !finished {
